@@ -19,10 +19,10 @@ func init() {
 		ID:    "C09",
 		Level: "exploration",
 		Rule: "sequential histories of attester calls replayed step by step against an executable model (verified set + per-client map issuer-origin-ID -> anonymous-origin-ID): operations Verify(c, honest), Verify(c, invalid), Finalize(c, issuer ID j, anonymous ID k). " +
-			"Every history of length <= 4 (quick) / <= 5 (thorough) over 2 clients x 2 issuer IDs x 2 anonymous IDs (14 operations: honest verify, verify with an invalid signature, verify of another client's correctly signed request, 4 finalizations per client) is enumerated, every history of length <= 5 / <= 6 over a second set of 7 operations that includes FinalizeIndex under client key bytes no request was verified for (the uncompressed SEC1 encoding of a verified client's point: must be refused and leave no state), plus seeded histories of length 200 over 3 clients x 5 x 5. Issuer IDs are realised without an issuer by handing in ref-blinded fixed points. " +
+			"Every history of length <= 4 (quick) / <= 5 (thorough) over 2 clients x 2 issuer IDs x 2 anonymous IDs (14 operations: honest verify, verify with an invalid signature, verify of another client's correctly signed request, 4 finalizations per client) is enumerated, every history of length <= 5 / <= 6 over a second set of 7 operations that includes FinalizeIndex under client key bytes no request was verified for (the uncompressed SEC1 encoding of a verified client's point: must be refused and leave no state), plus seeded histories of length 200 over 3 clients x 5 x 5 (every other one, and one more exhaustive family, with all client-key arguments handed over in one buffer refilled in place), plus one history that binds 1100 / 4200 distinct issuer IDs for one client with refused conflicts and repeated verifications in between. Issuer IDs are realised without an issuer by handing in ref-blinded fixed points. " +
 			"Oracle at every step: accept/reject as the model says, returned ID = reference HKDF, and the hook snapshot of the client's binding map equals the model's (so a rejected call that overwrote a binding is seen even if no later call probes it). " +
 			"distinct_nontrivial = histories containing a rejection followed by a later acceptance for the same client",
-		Floors:      []string{"steps_checked", "finalize_accept_new", "finalize_accept_repeat", "finalize_reject_conflict", "finalize_reject_unknown_client", "finalize_reject_unverified_encoding_of_verified_point", "verify_reject_invalid", "snapshot_equal_model", "histories"},
+		Floors:      []string{"steps_checked", "finalize_accept_new", "finalize_accept_repeat", "finalize_reject_conflict", "finalize_reject_unknown_client", "finalize_reject_unverified_encoding_of_verified_point", "verify_reject_invalid", "snapshot_equal_model", "histories", "histories_with_client_key_buffer_reused_in_place", "flood_history_of_one_client"},
 		Assumptions: []string{"histories are sequential (the statement is over sequences); the per-client state is observed through the verif-tagged VerifSnapshot hook"},
 		Run:         runC09,
 	})
@@ -58,6 +58,18 @@ type c09World struct {
 	brk       [][][]byte // [client][j]
 	index     [][][]byte // [client][j] reference ID
 	anon      [][]byte
+	// sharedKeyBuf: when set, every client-key argument is handed over in this one buffer, refilled in place before each
+	// call (a server that reads each request's client key into the same receive buffer)
+	sharedKeyBuf []byte
+}
+
+// keyArg returns the client-key argument for a call.
+func (w *c09World) keyArg(k []byte) []byte {
+	if w.sharedKeyBuf == nil {
+		return k
+	}
+	w.sharedKeyBuf = append(w.sharedKeyBuf[:0], k...)
+	return w.sharedKeyBuf
 }
 
 func newC09World(c *core.Ctx, nClients, nIdx, nAnon int) *c09World {
@@ -138,7 +150,7 @@ func (w *c09World) replay(hist []c09Op, tag string) {
 				req = w.honest[(op.client+1)%len(w.honest)]
 			}
 			var err error
-			pan, pv, _ := core.Guard(func() { err = att.VerifyRequest(req, w.blind[op.client], ck, w.anon[0]) })
+			pan, pv, _ := core.Guard(func() { err = att.VerifyRequest(req, w.blind[op.client], w.keyArg(ck), w.anon[0]) })
 			if pan {
 				bad("panic", "VerifyRequest panicked: "+pv)
 				return
@@ -164,7 +176,7 @@ func (w *c09World) replay(hist []c09Op, tag string) {
 			// another encoding of the same point - is a client the attester has verified nothing for
 			var err error
 			pan, pv, _ := core.Guard(func() {
-				_, err = att.FinalizeIndex(w.altKey[op.client], w.blind[op.client], w.brk[op.client][op.j], w.anon[op.k])
+				_, err = att.FinalizeIndex(w.keyArg(w.altKey[op.client]), w.blind[op.client], w.brk[op.client][op.j], w.anon[op.k])
 			})
 			if pan {
 				bad("panic", "FinalizeIndex panicked: "+pv)
@@ -187,7 +199,7 @@ func (w *c09World) replay(hist []c09Op, tag string) {
 			var idx []byte
 			var err error
 			pan, pv, _ := core.Guard(func() {
-				idx, err = att.FinalizeIndex(ck, w.blind[op.client], w.brk[op.client][op.j], w.anon[op.k])
+				idx, err = att.FinalizeIndex(w.keyArg(ck), w.blind[op.client], w.brk[op.client][op.j], w.anon[op.k])
 			})
 			if pan {
 				bad("panic", "FinalizeIndex panicked: "+pv)
@@ -342,6 +354,54 @@ func runC09(c *core.Ctx) {
 			}
 		}
 	}
+	// exhaustive family 2 again with every client key handed over in one buffer that is refilled in place
+	{
+		w.sharedKeyBuf = make([]byte, 0, 128)
+		L3 := c.Pick(4, 5)
+		for l := 2; l <= L3; l++ {
+			total := 1
+			for i := 0; i < l; i++ {
+				total *= len(ops2)
+			}
+			for lo := 0; lo < total; lo += chunk {
+				if !c.Next() {
+					continue
+				}
+				for x := lo; x < lo+chunk && x < total; x++ {
+					hist := make([]c09Op, l)
+					y := x
+					for i := 0; i < l; i++ {
+						hist[i] = ops2[y%len(ops2)]
+						y /= len(ops2)
+					}
+					w.replay(hist, fmt.Sprintf("exh2-sharedbuf:%d:%d", l, x))
+				}
+				c.Class("histories_with_client_key_buffer_reused_in_place")
+			}
+		}
+		w.sharedKeyBuf = nil
+	}
+	// one very long history for one client: more than a thousand distinct (issuer origin ID, anonymous origin ID)
+	// bindings, interleaved with refused conflicting pairs and repeated verifications; afterwards every binding is still in
+	// force (the model comparison after each step sees a state that was dropped or restarted)
+	if c.Next() {
+		nb := c.Pick(1100, 4200)
+		wf := newC09World(c, 1, nb, nb)
+		var hist []c09Op
+		hist = append(hist, c09Op{kind: 0, client: 0})
+		for j := 0; j < nb; j++ {
+			hist = append(hist, c09Op{kind: 2, client: 0, j: j, k: j})
+			if j%3 == 2 {
+				hist = append(hist, c09Op{kind: 2, client: 0, j: j - 1, k: j}) // conflicting: refused
+			}
+			if j%257 == 256 || j == nb-1 {
+				hist = append(hist, c09Op{kind: 0, client: 0}, c09Op{kind: 2, client: 0, j: 0, k: 0}, c09Op{kind: 2, client: 0, j: 1, k: 0})
+			}
+		}
+		wf.replay(hist, "flood")
+		c.Class("flood_history_of_one_client")
+		c.Info("flood_history_bindings", nb)
+	}
 	// seeded long histories: 3 clients x 5 x 5
 	w2 := newC09World(c, 3, 5, 5)
 	n := c.Pick(50, 2000)
@@ -363,6 +423,12 @@ func runC09(c *core.Ctx) {
 			default:
 				hist[s] = c09Op{kind: 2, client: ci, j: r.IntN(5), k: r.IntN(5)}
 			}
+		}
+		if i%2 == 1 {
+			w2.sharedKeyBuf = make([]byte, 0, 128)
+			c.Class("histories_with_client_key_buffer_reused_in_place")
+		} else {
+			w2.sharedKeyBuf = nil
 		}
 		w2.replay(hist, fmt.Sprintf("long:%d", i))
 		if i < 1 {
